@@ -38,20 +38,74 @@ MANIFEST = dict(
           "concrete failing input. Transcendental objects (logistic, exponential, cauchy, savage, tangent, class-NLL losses; exponential "
           "and cauchy functions): per-run kernel-checked interval enclosures of the transcendental specs at sampled points "
           "(|spec(exact dyadic inputs) - returned double| <= 1e-11 * (1 + sum |terms|), one CoqInterval lemma per number, ~190 quick / "
-          "~2000 thorough) -- validation at sampled points, not the unbounded claim."),
+          "~2000 thorough) -- validation at sampled points, not the unbounded claim. "
+          "EXTENSION (C06_Convex2_Defs.v / C06_Convex2.v, 17 more theorems, stage `ext` of harness and driver): log-sum-exp is convex with "
+          "gradient soft-max; the gradient the class-NLL code computes (shift by the largest output) IS soft-max minus the label indicator; the "
+          "value the code computes (epsilon inside the logarithm) lies in [ideal, ideal + ln(1+eps)] and satisfies the sub-gradient inequality up "
+          "to the slack ln(1+eps) <= eps, while the EXACT inequality is refuted for the code's formula (witness at 4.8e-33, kernel-checked with "
+          "CoqInterval; below binary64 resolution, not observable on the library). Exact second-order expansions (gradient = derivative) for "
+          "trid (remainder d'Td, 2 d'Td = d_1^2 + sum (d_{i+1}-d_i)^2 + d_n^2), the rotated ellipsoid (remainder f(z-x)), fn:quadratic "
+          "x.(a + 1/2 A x) for symmetric A (the constructor's I + B B' is proved symmetric with Rayleigh quotient >= 1), the quadratic "
+          "constraint with ANY square P (gradient 1/2 (P+P')x + q; mu-strongly convex <=> mu bounds d'Pd/d'd, i.e. the symmetric part decides), "
+          "the coordinate constraints; a general lemma for pointwise maxima with the gradient of the FIRST largest piece (the rule of "
+          "maxCoeff / the strict `>` loop of maxquad, pinned by translated kernels) with the instances maxq, maxhilb (any matrix, sign(0) = +1, "
+          "weights 1/(i+j+1) from a translated kernel), maxquad (symmetric psd pieces), kinks (sum of |x - K_i|_1), geometric optimisation; "
+          "empirical risks mean_i L(t_i, M_i x + c_i) through per-sample affine maps with gradient mean_i M_i' G (chain rule by the adjoint "
+          "<A'y, x> = <y, Ax>) for every loss convex in its outputs (all coefficient-wise kernels with a tangent inequality, class-NLL): the "
+          "linear-model objective with the weighted l1 / l2 regulariser and the guards `> 0.0` of the source (translated) is convex in (W, b) "
+          "and satisfies the declared l2/(isize*tsize) for pairs that move the weights only -- and NOT for a pair that moves the bias only "
+          "(the known finding restated as a theorem with the probe's data); gboost bias / scale; elastic-net objectives are alpha2-strongly "
+          "convex as declared. The new exact-rational instances are compared with the library on every run (QF CQ KK LM GB GS EN lines and more "
+          "FN lines aimed at exact ties; geometric optimisation through interval lemmas), with new direct oracles for the proved clauses "
+          "(`expansion`: f(z)-f(x)-g.(z-x) == the remainder of the theorem computed independently; `active-piece`: first largest piece and "
+          "sub-gradient on exact ties; `classnll-softmax`: gradient == soft-max - indicator, value within eps of lse - posum in long double)."),
     note=("Coq kernel + standard real-number axioms + Coquelicot + CoqInterval (per-run lemmas, Qed-checked); regular-expression flag parser and translator (6 size kernels + the 4 branch tests of chained_cb3I/II) in "
           "tools/; extraction (ExtrOcamlBasic, exact Q); harness against the library built from the working tree + OCaml driver; "
           "floating-point rounding is outside the theorems (compared within 1e-9 / searched with tolerances); objects without a "
-          "convexity theorem (class-NLL, trid, rotated ellipsoid, maxq, quadratic, geometric, maxquad, maxhilb, kinks, elastic "
-          "net, coordinate / quadratic / functional constraints, all ML objectives) are searched only; directed probes (exact cb3 "
+          "convexity theorem (after the extension: functional constraints, gboost-grads, the surrogate objectives, powell; cauchy / savage / "
+          "tangent are declared non-convex) are searched only; directed probes (exact cb3 "
           "ties, non-symmetric P) guard the fixes 114b02b / 3feb922; one known finding (linear strong convexity ignores the "
-          "unregularised bias, notes/C06.md)."),
+          "unregularised bias, notes/C06.md; now also the theorem C06_ml_linear_strong_convexity_in_bias_refuted). Extension: 4 more translated "
+          "kernels (maxhilb denominator, maxquad loop test, the two regularisation guards of linear/function.cpp), each pinned by a theorem; "
+          "the Q->R transfer theorem covers the first-build objects only -- the new objects are the same polymorphic definitions instantiated at "
+          "Qops (extracted, compared with the library) and Rops (theorems); hypotheses that are NOT tied to the library: symmetry / positive "
+          "semi-definiteness of the maxquad matrices (built from exp/cos/sin in the constructor; maxquad has a theorem but no model tie), "
+          "`least eigenvalue of the symmetric part is a Rayleigh lower bound` (spectral theorem, not proved: the ext stage checks the declared "
+          "coefficient against d'Pd/d'd on its pairs); the random data of fn:quadratic / kinks / geometric / elastic net are re-drawn by the "
+          "harness with the constructor's public calls (fn:quadratic additionally reads the matrix off the gradient and compares it with I + B B')."),
     technique="Coq proof over R of a model shared with its extracted exact-rational instance (proved Q->R transfer), source-parsed "
               "declaration table, differential correspondence, per-run kernel-checked interval enclosures of the transcendental specs "
               "at sampled points (validation at sampled points, not the unbounded claim), direct property oracles on the implementation",
     design="DESIGN.md section 2, C06")
 
 VARIANTS = ["rel"]
+# lines the extracted model recomputes (SIZE LV FN CN: first build; QF CQ KK LM GB GS: extension stage `ext`, C06_Convex2_Defs.v); GE lines
+# (geometric optimisation) go through the per-run interval lemmas
+TIE_PREFIXES = ("SIZE ", "LV ", "FN ", "CN ", "QF ", "CQ ", "KK ", "LM ", "GB ", "GS ", "EN ", "GE ")
+EXT_CLAUSES = ("expansion", "active-piece", "classnll-softmax")
+
+# object of the declaration table -> theorem(s) of Properties_C06.v that justify its `convex` declaration (or refute convexity)
+OBJECT_THEOREMS = {
+    "loss:mse": "C06_loss_mse_convex", "loss:mae": "C06_loss_mae_convex", "loss:hinge": "C06_loss_hinge_convex",
+    "loss:squared-hinge": "C06_loss_squared_hinge_convex", "loss:pinball": "C06_loss_pinball_convex",
+    "loss:exponential": "C06_loss_exponential_convex", "loss:logistic": "C06_loss_logistic_convex",
+    "loss:classnll": "C06_loss_classnll_convex",
+    "fn:sphere": "C06_fn_sphere_convex", "fn:axis-ellipsoid": "C06_fn_axis_ellipsoid_convex", "fn:schumer-steiglitz": "C06_fn_schumer_steiglitz_convex",
+    "fn:chung-reynolds": "C06_fn_chung_reynolds_convex", "fn:sargan": "C06_fn_sargan_convex", "fn:zakharov": "C06_fn_zakharov_convex",
+    "fn:chained_lq": "C06_fn_chained_lq_convex", "fn:exponential": "C06_fn_exponential_convex", "fn:chained_cb3I": "C06_fn_chained_cb3I_convex",
+    "fn:chained_cb3II": "C06_fn_chained_cb3II_convex", "fn:qing": "C06_fn_qing_declared_nonconvex",
+    "fn:styblinski-tang": "C06_fn_styblinski_tang_declared_nonconvex", "fn:rosenbrock": "C06_fn_rosenbrock_declared_nonconvex",
+    "fn:dixon-price": "C06_fn_dixon_price_declared_nonconvex",
+    "fn:trid": "C06_fn_trid_convex", "fn:rotated-ellipsoid": "C06_fn_rotated_ellipsoid_convex", "fn:quadratic": "C06_fn_quadratic_convex",
+    "fn:maxq": "C06_fn_maxq_convex", "fn:maxhilb": "C06_fn_maxhilb_convex", "fn:kinks": "C06_fn_kinks_convex", "fn:maxquad": "C06_fn_maxquad_convex",
+    "fn:geometric-optimization": "C06_fn_geometric_convex", "fn:enet": "C06_fn_elastic_net_convex",
+    "enet-loss:mse": "C06_fn_elastic_net_convex", "enet-loss:mae": "C06_fn_elastic_net_convex", "enet-loss:hinge": "C06_fn_elastic_net_convex",
+    "enet-loss:logistic": "C06_fn_elastic_net_convex",
+    "cons:euclidean_ball": "C06_cons_ball_convex", "cons:linear": "C06_cons_linear_affine", "cons:constant": "C06_cons_coordinate_affine",
+    "cons:quadratic": "C06_cons_quadratic_convex", "util:convex(P)": "C06_cons_quadratic_convex", "util:strong_convexity(P)": "C06_cons_quadratic_convex",
+    "ml:linear": "C06_ml_linear_convex (+ C06_ml_linear_strong_convexity_in_bias_refuted)", "ml:gboost-bias": "C06_ml_gboost_convex",
+    "ml:gboost-scale": "C06_ml_gboost_convex",
+}
 HARNESS = "c06_objects"
 
 # Findings of the unchanged code (see notes/C06.md). LINEAR_FP is listed in known_findings.json (integrator decision): it is reported
@@ -177,7 +231,8 @@ def coq_side():
         flags = gen_flags()
     except vlib.CheckError as ex:
         err = str(ex)
-    cres = vlib.coq_check("C06", targets=["theories/Extract_C06.vo", "theories/Properties_C06.vo"])
+    # C06_Convex2_Refuted.vo: the refutation of the exact class-NLL inequality (needs CoqInterval; deliberately not imported by Properties_C06.v)
+    cres = vlib.coq_check("C06", targets=["theories/Extract_C06.vo", "theories/Properties_C06.vo", "theories/C06_Convex2_Refuted.vo"])
     if err and cres["ok"]:
         cres["ok"] = False
         cres["broken"] = "flag-parser:" + err
@@ -199,9 +254,16 @@ IV_HEADER = """(* GENERATED by tools/checks/c06.py on every run from the values 
    Validation at sampled points, not the unbounded claim. *)
 From Coq Require Import Reals List Lra.
 From Interval Require Import Tactic.
-From LN Require Import C06_Defs.
+From LN Require Import C06_Defs C06_Convex2_Defs.
 Import ListNotations.
 Local Open Scope R_scope.
+
+(* geometric optimisation sum_i exp(a_i + A_i . x) and its gradient A' exp(a + A x) (C06_Convex2_Defs.v) *)
+Ltac iv_geo :=
+  unfold geo_v, geo_g, mv, dot, total;
+  cbn [map length mtv]; unfold vadd, vscale, zeros;
+  cbn [map map2 sum2 fold_right repeat nth o_add o_mul o_zero Rops];
+  interval with (i_prec 70).
 
 Lemma iv_ltb_pos : forall a, 0 < a -> Rltb 0 a = true.
 Proof. intros a H. unfold Rltb. destruct (Rlt_dec 0 a); [reflexivity | contradiction]. Qed.
@@ -263,7 +325,7 @@ def _dec_atan(x):
     return s * (2 ** n)
 
 
-def _iv_spec(kind, what, idx, t, o):
+def _iv_spec(kind, what, idx, t, o, geo=None):
     """high-precision value of the specification (measurement of the error ratio only; the check is the Coq lemma);
     returns (value, sum of |terms|)"""
     import decimal
@@ -272,6 +334,12 @@ def _iv_spec(kind, what, idx, t, o):
     d = lambda q: D(q.numerator) / D(q.denominator)
     t, o = [d(x) for x in t], [d(x) for x in o]
     one = D(1)
+    if kind == "geo":
+        es = [(d(a) + sum(d(c) * x for c, x in zip(row, o))).exp() for a, row in zip(geo[0], geo[1])]
+        if what == "v":
+            return sum(es), sum(abs(e) for e in es)
+        terms = [e * d(row[idx]) for e, row in zip(es, geo[1])]
+        return sum(terms), sum(abs(x) for x in terms)
     if kind in ("fexp", "fcauchy"):
         s2, n = sum(x * x for x in o), D(len(o))
         if kind == "fexp":
@@ -335,6 +403,8 @@ def iv_cases(lines, tier, seed):
             i = l.split(" ", 2)[1]
             if i in IV_FNS:
                 by["FN " + i].append(l)
+        elif l.startswith("GE "):
+            by["GE geometric"].append(l)
     cases, skipped = [], collections.Counter()
     for key in sorted(by):
         ls = by[key]
@@ -342,8 +412,16 @@ def iv_cases(lines, tier, seed):
         for l in ls[:per_id]:
             lhs, rhs = l.split(" = ", 1)
             lp, rp = lhs.split(" | "), rhs.split(" | ")
+            geo = None
             try:
-                if key.startswith("LV "):
+                if key.startswith("GE "):
+                    kind = "geo"
+                    ga = [_frac(x) for x in lp[1].split(",")]
+                    gA = [[_frac(x) for x in row.split(",")] for row in lp[2].split(";")]
+                    t, o = [], [_frac(x) for x in lp[3].split(",")]
+                    val, grad = _frac(rp[0]), [_frac(x) for x in rp[1].split(",")]
+                    geo = (ga, gA)
+                elif key.startswith("LV "):
                     kind = IV_LOSSES[key[3:]]
                     t, o = [_frac(x) for x in lp[1].split(",")], [_frac(x) for x in lp[2].split(",")]
                     val, grad = _frac(rp[0]), [_frac(x) for x in rp[1].split(",")]
@@ -363,7 +441,11 @@ def iv_cases(lines, tier, seed):
             lt, lo = "[" + "; ".join(_rlit(x) for x in t) + "]", "[" + "; ".join(_rlit(x) for x in o) + "]"
             for what, idx in [("v", 0)] + [("g", i) for i in comps]:
                 number = val if what == "v" else grad[idx]
-                if kind in ("fexp", "fcauchy"):
+                if kind == "geo":
+                    la = "[" + "; ".join(_rlit(x) for x in geo[0]) + "]"
+                    lA = "[" + "; ".join("[" + "; ".join(_rlit(x) for x in row) + "]" for row in geo[1]) + "]"
+                    term = "geo_v %s %s %s" % (la, lA, lo) if what == "v" else "nth %d (geo_g %s %s %s) 0" % (idx, la, lA, lo)
+                elif kind in ("fexp", "fcauchy"):
                     fv, fg = IV_FNS[key[3:]]
                     term = "%s %s" % (fv, lo) if what == "v" else "nth %d (%s %s) 0" % (idx, fg, lo)
                 elif kind == "classnll":
@@ -372,13 +454,13 @@ def iv_cases(lines, tier, seed):
                 else:
                     term = ("loss_v Rops kr_%s_v %s %s" % (kind, lt, lo)) if what == "v" else \
                            ("nth %d (loss_g kr_%s_g %s %s) 0" % (idx, kind, lt, lo))
-                spec, mag = _iv_spec(kind, what, idx, t, o)
+                spec, mag = _iv_spec(kind, what, idx, t, o, geo)
                 tol = decimal.Decimal(IV_REL) * (1 + mag)
                 tolq = Fraction(int(tol.scaleb(40).to_integral_value(rounding=decimal.ROUND_FLOOR)), 10 ** 40)
                 err = abs(spec - decimal.Decimal(number.numerator) / decimal.Decimal(number.denominator))
                 name = "iv_%04d" % len(cases)
                 cases.append({"name": name, "line": l, "what": "value" if what == "v" else "gradient[%d]" % idx, "object": key,
-                              "tac": ("iv_nll %s" % _rlit(max(o))) if kind == "classnll" else "iv",
+                              "tac": ("iv_nll %s" % _rlit(max(o))) if kind == "classnll" else ("iv_geo" if kind == "geo" else "iv"),
                               "stmt": "Rabs (%s - %s) <= %s" % (term, _rlit(number), _rlit(tolq)),
                               "spec": str(spec)[:40], "err": float(err), "tol": float(tol), "ratio": float(err / tol)})
                 if len(cases) >= cap:
@@ -559,7 +641,8 @@ def run(tier, replay=None):
                 "replay_cmd": cmd("probe") + " | grep '^PROBE %s .*violated$'" % key,
                 "meaning": "PROBE name | object and points x, z (C hex floats) | declared flags, f(x), gradient, f(z), f(x)+g.(z-x)+mu/2|z-x|^2 | verdict"})
     seen = set()
-    for l in plain:
+    # the clauses of the extension stage first (they name the proved clause that fails), then the general oracles
+    for l in sorted(plain, key=lambda l: 0 if l.split(" ", 2)[1] in EXT_CLAUSES else 1):
         key = (l.split(" ", 2)[1], _family(l))
         if key in seen or len(seen) >= 5:
             continue
@@ -569,7 +652,7 @@ def run(tier, replay=None):
         r.violation("impl-%s-%s" % (key[0], re.sub(r"[^\w]+", "_", key[1])[:40]),
                     {"kind": "direct property check failed on the implementation", "clause": key[0], "family": key[1],
                      "case": shortest[:8000], "failures_of_this_kind": len(same),
-                     "replay_cmd": cmd(_group(key[1])) + " | grep '^FAIL %s '" % key[0],
+                     "replay_cmd": cmd("ext" if (key[0] in EXT_CLAUSES or key[1].endswith("(ext)")) else _group(key[1])) + " | grep '^FAIL %s '" % key[0],
                      "meaning": "FAIL clause object(description sufficient to rebuild it) | family | numbers as C hex floats: x, z, "
                                 "gradient, value(s); the replay command regenerates the case from VERIF_SEED"})
     what = {LINEAR_FP: "linear::function_t declares strong_convexity = l2/(isize*tsize) but the bias is not regularised: the objective is "
@@ -585,14 +668,14 @@ def run(tier, replay=None):
         else:
             candidates.append(dict(payload, fingerprint=fp))
     # 3./4. correspondence with the extracted exact-rational model
-    mism, checked, skipped = [], 0, 0
+    mism, checked, skipped, ext_checked = [], 0, 0, 0
     drv = None
     try:
         drv = vlib.build_ocaml("c06_driver", "c06_model.ml", "c06_driver.ml")
     except (vlib.CheckError, OSError):
         if cres["ok"]:
             raise
-    tie_lines = [l for l in lines if l.startswith(("SIZE ", "LV ", "FN ", "CN "))]
+    tie_lines = [l for l in lines if l.startswith(TIE_PREFIXES)]
     if drv:
         rc2, mout = vlib.sh([drv], input="\n".join(tie_lines) + "\n", timeout=3000)
         for l in mout.split("\n"):
@@ -601,6 +684,7 @@ def run(tier, replay=None):
             elif l.startswith("MODEL-DONE"):
                 d = _kv(l)
                 checked, skipped = int(d.get("checked", 0)), int(d.get("skipped", 0))
+                ext_checked = int(d.get("ext", 0))
         if rc2 != 0 or (not checked and tie_lines):
             r.violation("driver", {"kind": "model driver failed", "out": mout[-2000:]}, no_input=True)
         kinds = set()
@@ -618,14 +702,17 @@ def run(tier, replay=None):
             r.violation("corr-%s" % re.sub(r"[^\w]+", "_", kind)[:40],
                         {"kind": "implementation differs from the exact model beyond 1e-9 of the summed magnitudes (0-1 errors, sizes: exactly)",
                          "case": shortest[:8000], "mismatches_of_this_kind": len(same),
-                         "replay_cmd": cmd("") + " | grep -E '^(SIZE|LV|FN|CN) ' | " + str(drv),
+                         "replay_cmd": cmd("") + " | grep -E '^(SIZE|LV|FN|CN|QF|CQ|KK|LM|GB|GS|EN) ' | " + str(drv),
                          "meaning": "`<harness line> // model: <what the model computes>`; LV loss alpha | target | output = value | "
-                                    "gradient | error; FN function n | x = f | gradient; CN kind n | parameters | x = f | gradient"},
+                                    "gradient | error; FN function n | x = f | gradient; CN kind n | parameters | x = f | gradient; extension stage: "
+                                    "QF n | a | B | A read off the gradient | x; CQ kind n | P | q | r | x; KK n | K | offset | x; LM loss l1 l2 isize tsize | "
+                                    "inputs | targets | x; EN loss alpha1 alpha2 n | inputs | targets | bias | x; GB loss tsize | targets | x; GS loss tsize groups | group of each sample | soutputs | woutputs | targets | x "
+                                    "(rows separated by `;`, C hex floats)"},
                         no_input=not plain and p[1] == "SIZE")
     # style D: kernel-checked interval enclosures of the transcendental specifications at sampled points of this run
     iv = {"lemmas": 0, "failed": [], "seconds": 0.0, "error": None}
     iv_list, iv_skipped = [], {}
-    if os.path.exists(os.path.join(vlib.COQ, "theories", "C06_Defs.vo")):
+    if os.path.exists(os.path.join(vlib.COQ, "theories", "C06_Defs.vo")) and os.path.exists(os.path.join(vlib.COQ, "theories", "C06_Convex2_Defs.vo")):
         iv_list, iv_skipped = iv_cases(tie_lines, tier, r.seed)
         iv = iv_gate(r, iv_list, tier)
         for i, c in enumerate(iv["failed"][:4]):
@@ -644,7 +731,9 @@ def run(tier, replay=None):
     vlib.proof_coverage(r, cres, "make -C coq theories/Properties_C06.vo && coqc theories/Properties_C06.v (Print Assumptions)",
                         ["tools/checks/c06.py: parser of the convex/smooth/strong_convexity declarations (regular expressions over "
                          "src/function/benchmark/*.cpp, elastic_net.h, flatten.h, pinball.cpp, constraint.cpp, linear/gboost/surrogate constructors)",
-                         "tools/translate.py (6 size kernels, 4 branch tests of chained_cb3I/II)",
+                         "tools/translate.py (6 size kernels, 4 branch tests of chained_cb3I/II, extension: maxhilb denominator, maxquad loop test, 2 guards of linear/function.cpp)",
+                         "extension stage: the harness re-draws the random data of fn:quadratic / kinks / geometric / elastic net with the constructors' public calls "
+                         "(make_random_*, synthetic_scalar_t / synthetic_sclass_t) and builds the per-sample design matrices of the linear / gboost objectives in the driver",
                          "extraction: ExtrOcamlBasic (exact Q on the inductive Z/positive)",
                          "the hand-written formulas of C06_Defs.v (tied by the exact-rational correspondence and, for exp/ln/atan objects, by "
                          "the per-run interval lemmas)",
@@ -652,6 +741,14 @@ def run(tier, replay=None):
                          "ocaml/c06_driver.ml (exact double->Q conversion, 1e-9 comparison), harness/c06_objects.cpp (tolerances of the direct "
                          "oracles), g++ -O2"])
     cov = r.coverage
+    # the theorem kept outside Properties_C06.v (CoqInterval): built by the same `make` (a failure breaks cres), gated for forbidden words here
+    ref = os.path.join(vlib.COQ, "theories", "C06_Convex2_Refuted.v")
+    ref_ok = cres["ok"] and os.path.exists(ref[:-2] + ".vo") and not vlib.FORBIDDEN.search(vlib.strip_coq_comments(open(ref).read()))
+    if cres["ok"] and not ref_ok:
+        r.violation("refuted-file", {"kind": "C06_Convex2_Refuted.v is not compiled or contains a forbidden word"}, no_input=True)
+    cov["obligations"] += 1
+    cov["discharged"] += 1 if ref_ok else 0
+    cov["theorems_outside_properties"] = ["C06_loss_classnll_code_exact_inequality_refuted (theories/C06_Convex2_Refuted.v, CoqInterval i_prec 300)"]
     cov["obligations"] += iv["lemmas"]
     cov["discharged"] += iv["lemmas"] - len(iv["failed"]) if not iv["error"] else 0
     cov["interval_lemmas"] = iv["lemmas"]
@@ -667,6 +764,7 @@ def run(tier, replay=None):
     cov["evaluations"] = int(st.get("evals", 0))
     cov["correspondence_lines_checked"] = checked
     cov["correspondence_lines_without_model"] = skipped
+    cov["correspondence_lines_extension_stage"] = ext_checked
     distinct = set(vlib.sha(l) for l in tie_lines if not l.startswith("SIZE ") and re.search(r"0x1\.[0-9a-f]*p|0x1p", l.split(" = ", 1)[-1]))
     cov["distinct_nontrivial"] = len(distinct)
     cov["rule"] = ("objects: 17 losses x outputs {1,2,3,5,13} (thorough 1..13) x target patterns (regression dyadic/random, one-hot, no / all / "
@@ -686,6 +784,12 @@ def run(tier, replay=None):
     cov["known_findings_hit"] = [{"fingerprint": fp, "failures": len(cand.get(fp, []))} for fp, _ in r.known_hits]
     cov["coq_side"] = "ok" if cres["ok"] else "BROKEN: %s" % cres["broken"]
     cov["declared_flags"] = {k: list(v) for k, v in sorted(flags.items())}
+    cov["objects_total"] = len(flags)
+    cov["objects_with_theorems"] = {k: OBJECT_THEOREMS[k] for k in sorted(flags) if k in OBJECT_THEOREMS}
+    cov["objects_without_theorem"] = sorted(k for k in flags if k not in OBJECT_THEOREMS)
+    missing_thm = sorted(set(t.split(" ")[0] for t in OBJECT_THEOREMS.values()) - set(cres.get("theorems", [])))
+    if missing_thm and cres["ok"]:
+        r.violation("theorem-table", {"kind": "objects_with_theorems names theorems that Properties_C06.v does not state", "missing": missing_thm}, no_input=True)
     convex_decl = sorted(k for k, v in flags.items() if v[0] == "yes")
     cov["objects_declaring_convex_unconditionally"] = convex_decl
     cov["samples"] = ([l[:500] for l in tie_lines if l.startswith("LV ")][:2] + [l[:500] for l in tie_lines if l.startswith("FN ")][:2]
@@ -700,16 +804,20 @@ def run(tier, replay=None):
 
 
 UNPROVED = [
-    "gradient == derivative for squared-hinge, class-NLL and the non-separable / transcendental functions (trid, rotated ellipsoid, "
-    "rosenbrock, dixon-price, powell, zakharov, chung-reynolds, sargan, exponential, cauchy, geometric, cb3, maxq, ...): exact-Q "
-    "correspondence with the closed forms where algebraic + central differences on the implementation",
-    "convexity of class-NLL (log-sum-exp), trid, rotated ellipsoid, maxq, quadratic (random psd matrix), geometric-optimization, "
-    "maxquad, maxhilb, kinks, elastic-net objectives, constant / minimum / maximum / quadratic / functional "
-    "constraints, linear / gboost / surrogate-fit ML objectives: convexity inequality with hill-climbing on the implementation only",
-    "class-NLL adds machine epsilon inside the logarithm: value differs from the ideal log-sum-exp by <= 2.3e-16 (inside every tolerance; "
-    "searched through central differences, the convexity inequality and non-negativity: no failure)",
+    "gradient == derivative for squared-hinge and the non-separable / transcendental functions without an exact expansion (rosenbrock, "
+    "dixon-price, powell, zakharov, chung-reynolds, sargan, exponential, cauchy, geometric, cb3, ...): exact-Q correspondence with the closed "
+    "forms where algebraic + central differences on the implementation (trid, rotated ellipsoid, fn:quadratic, quadratic / coordinate / ball / "
+    "linear constraints, sphere now have exact expansions = derivative theorems)",
+    "convexity of functional constraints, gboost-grads, surrogate-fit objectives: convexity inequality with hill-climbing on the implementation only; "
+    "maxquad: theorem for symmetric psd pieces, but the matrices of the constructor (exp/cos/sin) are not tied (searched)",
+    "declared strong convexity of quadratic objects = least eigenvalue of the symmetric part computed by Eigen: the theorem needs a Rayleigh lower "
+    "bound; that the numerically computed eigenvalue is one is searched (ext stage: d'Pd >= mu |d|^2 on its pairs; general oracle with hill-climbing)",
+    "class-NLL adds machine epsilon inside the logarithm: proved |value - ideal| <= ln(1+eps) and the inequality up to that slack; the exact "
+    "inequality is refuted at the 1e-33 level (theorem), unobservable in binary64",
     "value-only == value+gradient (bit-exact for the scalar code, 1e-12 relative for the threaded ML objectives)",
     "per-sample locality on the implementation (batch of 8 == one-by-one within 16 ulp; 0-1 errors exactly)",
     "floating-point: |library value - exact model| <= 1e-9 * (summed magnitudes) for the algebraic objects",
     "transcendental objects agree with their real specification: kernel-checked only at the sampled points of each run (interval "
-    "lemmas), not for all inputs; chained_cb3I/II, geometric, kinks, maxquad, maxhilb values have no interval tie"]
+    "lemmas, now also geometric optimisation), not for all inputs; chained_cb3I/II, maxquad values have no interval tie",
+    "ML objectives with transcendental / class-NLL losses: covered by the theorems through `loss_convex_on`, their values are not recomputed by the "
+    "model (LM/GB/GS/EN lines use the algebraic kernels mse, mae, pinball, hinge, squared-hinge)"]
